@@ -414,6 +414,12 @@ def stack(arrays, axis=None, keys=None, align=False, **kwargs):
     # find common axes
     try: 
         axes = _get_axes(*arrays)
+        # unlike broadcasting, stacking does not repeat single-label axes:
+        # their labels must match as well
+        for a in arrays:
+            for ax in a.axes:
+                if ax.size != axes[ax.name].size or not np.all(ax.values == axes[ax.name].values):
+                    raise ValueError("axes are not aligned")
     except ValueError as msg: 
         if 'axes are not aligned' in repr(msg):
             msg = 'axes are not aligned\n ==> Try passing `align=True`' 
